@@ -83,12 +83,12 @@ func observeAccrual(id int, ac accCase) map[string]any {
 }
 
 func C10(c *core.Ctx) {
-	c.Set("rule", "one annotated transaction per case: 1-4 bookings over all account types (incl. equity and the accrual account's type), positive/negative/zero amounts with 2 decimals (< 10^5) or 6 decimals (< 500), 4 intervals, windows of 1 day to 3 years placed before/around/after the transaction date; distinct by text; non-trivial = >= 1 income/expense leg split over >= 2 periods")
+	c.Set("rule", "one annotated transaction per case: 1-4 bookings over all account types (incl. equity and the accrual account's type), positive/negative/zero amounts with 2 decimals (< 10^5) or 6 decimals (< 500), the 4 intervals the annotation syntax accepts, windows of 1 day to 3 years placed before/around/after the transaction date; distinct by text; non-trivial = >= 1 income/expense leg split over >= 2 periods")
 	c.Trusted("TLC + Json module", "kj renderer", "decimal -> scaled-integer conversion of the generated postings")
 	c.MC("MC_Accrual", c.TierCfg("MC_Accrual"), 16, 40*time.Minute)
 	rng := rand.New(rand.NewSource(c.Seed))
 	accts := []string{"Assets:A", "Assets:B:C", "Liabilities:L", "Equity:Equity", "Equity:Opening", "Income:I", "Income:J:K", "Expenses:X", "Expenses:Y:Z"}
-	ivs := []string{"daily", "weekly", "monthly", "quarterly"}
+	ivs := []string{"daily", "weekly", "monthly", "quarterly"} // the four the parser accepts (its tests pin that list; the README also names once and yearly)
 	n := c.Pick(4000, 60000)
 	acs := make([]accCase, n)
 	for i := range acs {
@@ -121,7 +121,7 @@ func C10(c *core.Ctx) {
 			}
 			d.Bk = append(d.Bk, kj.Booking{Cr: cr, Dr: dr, C: []string{"CHF", "USD"}[rng.Intn(2)], Q: q})
 		}
-		iv := ivs[rng.Intn(4)]
+		iv := ivs[rng.Intn(len(ivs))]
 		var s, e int
 		switch rng.Intn(4) {
 		case 0: // before the transaction
